@@ -314,6 +314,18 @@ pub fn sizes(args: &[String]) -> i32 {
             let v: Vec<i64> = c.to_collection_generator(size).sample(&mut rng);
             (v.len(), c.0.get())
         })));
+        // an element type of size zero (units, markers): still exactly `size` elements
+        rows.push(("vec_collect_zero_sized", guarded(|| {
+            struct Units(Cell<i64>);
+            impl Distribution<()> for Units {
+                fn sample<R: Rng + ?Sized>(&self, _: &mut R) {
+                    self.0.set(self.0.get() + 1);
+                }
+            }
+            let c = Units(Cell::new(0));
+            let v: Vec<()> = c.to_collection_generator(size).sample(&mut rng);
+            (v.len(), c.0.get())
+        })));
         rows.push(("plushy_collect", guarded(|| {
             let c = Counter(Cell::new(0));
             let p: Plushy = c.to_collection_generator(size).sample(&mut rng);
@@ -324,6 +336,68 @@ pub fn sizes(args: &[String]) -> i32 {
                 Ok((len, drawn)) => out.line(&json!({"ev": "sized", "run": size, "kind": kind, "size": size, "len": len, "drawn": drawn})),
                 Err(m) => out.line(&json!({"ev": "sized", "run": size, "kind": kind, "size": size, "len": -1, "drawn": -1, "panic": m})),
             }
+        }
+    }
+    out.finish();
+    0
+}
+
+/// Collections of 2^32 and more members (cheap when the members have size zero): every flavour
+/// must accept them, report their true number of members and sample without failing. With
+/// `--bytes` a 2^32+3-byte collection is sampled too and the top byte of the chosen position
+/// tallied (each of the 256 values equally likely): members beyond 2^32 are reachable.
+pub fn huge(args: &[String]) -> i32 {
+    let seed = arg_u64(args, "--seed", 0);
+    let bytes = args.iter().any(|a| a == "--bytes");
+    let mut out = Out::create(arg_req(args, "--out"));
+    let mut rng = run_rng(seed, 0xC18, 4242);
+    for len in [1usize << 32, (1 << 32) + 5, 1 << 33] {
+        let mut rows: Vec<(&str, Result<Option<usize>, String>)> = Vec::new();
+        rows.push(("vec_into_owned", guarded(|| {
+            IntoDistribution::<()>::into_distribution(vec![(); len]).ok().map(|d| { let () = d.sample(&mut rng); d.num_choices().get() })
+        })));
+        rows.push(("one_of_cloning_new", guarded(|| {
+            OneOfCloning::<Vec<()>, ()>::new(vec![(); len]).ok().map(|d| { let () = d.sample(&mut rng); d.num_choices().get() })
+        })));
+        rows.push(("slice_into_ref", guarded(|| {
+            let v = vec![(); len];
+            IntoDistribution::<&()>::into_distribution(&v[..]).ok().map(|d| { let _: &() = d.sample(&mut rng); d.num_choices().get() })
+        })));
+        rows.push(("slice_to_clone", guarded(|| {
+            let v = vec![(); len];
+            ToDistribution::<()>::to_distribution(&v[..]).ok().map(|d| { let () = d.sample(&mut rng); d.num_choices().get() })
+        })));
+        rows.push(("choose_cloning_new", guarded(|| {
+            let v = vec![(); len];
+            ChooseCloning::new(&v[..]).ok().map(|d| { let () = d.sample(&mut rng); d.num_choices().get() })
+        })));
+        for (flavour, r) in rows {
+            let b = match r {
+                Ok(Some(n)) if n == len => json!({"k": "ok", "n": "len"}),
+                Ok(Some(n)) => json!({"k": "ok", "n": n.to_string()}),
+                Ok(None) => json!({"k": "empty_slice"}),
+                Err(m) => json!({"k": "panic", "msg": m}),
+            };
+            out.line(&json!({"ev": "huge", "run": len.to_string(), "flavour": flavour, "len": len.to_string(), "b": b}));
+        }
+    }
+    if bytes {
+        let len = (1usize << 32) + 3;
+        let v: Vec<u8> = (0..len).map(|k| (k >> 24) as u8).collect();
+        let n = 60_000usize;
+        for flavour in ["vec_into_owned", "slice_to_clone"] {
+            let mut counts = vec![0u64; 256];
+            let r = guarded(|| {
+                if flavour == "vec_into_owned" {
+                    let d = IntoDistribution::<u8>::into_distribution(v.clone()).ok().expect("non-empty");
+                    for _ in 0..n { counts[d.sample(&mut rng) as usize] += 1; }
+                } else {
+                    let d = ToDistribution::<u8>::to_distribution(&v[..]).ok().expect("non-empty");
+                    for _ in 0..n { counts[d.sample(&mut rng) as usize] += 1; }
+                }
+            });
+            out.line(&json!({"ev": "huge_law", "flavour": flavour, "len": len.to_string(), "n": n, "counts": counts,
+                             "panic": r.err()}));
         }
     }
     out.finish();
